@@ -36,7 +36,7 @@ type Stats struct {
 	steps, calls, forks, feasQueries, feasUnknown, concretizations int
 	obligations, dischargedConst, dischargedSolver, undischarged  int
 	oblQueries, assumes, assumeKilled, fresh, fpAbstract, killed   int
-	schedChoices, pathsDone, pathsDead, statesCreated               int
+	schedChoices, pathsDone, pathsDead, statesCreated, dischargedCore int
 	fnsEncoded map[string]int
 	stubs      map[string]int
 	asserts    map[string]int
@@ -71,6 +71,7 @@ type Output struct {
 	Queries        map[string]int    `json:"queries"`
 	FeasQueries    int               `json:"feasibility_queries"`
 	CacheHits      int               `json:"cache_hits"`
+	CoreHits       int               `json:"unsat_core_cache_hits"`
 	SolverS        float64           `json:"solver_s"`
 	WallS          float64           `json:"wall_s"`
 	Violations     []Violation       `json:"violations"`
@@ -318,7 +319,7 @@ func main() {
 	o := Output{Harness: *harness, Case: caseIndex, Scale: *scale, Paths: stats.pathsDone, PathsDead: stats.pathsDead, States: stats.statesCreated,
 		Forks: stats.forks, Steps: stats.steps, Calls: stats.calls, Obligations: stats.obligations, DischargedC: stats.dischargedConst,
 		DischargedS: stats.dischargedSolver, Undischarged: stats.undischarged, Queries: theSolver.Queries, FeasQueries: stats.feasQueries,
-		CacheHits: theSolver.CacheHit, SolverS: theSolver.Time.Seconds(), WallS: time.Since(t0).Seconds(), Violations: violations, Covers: covers,
+		CacheHits: theSolver.CacheHit, CoreHits: theSolver.CoreHit, SolverS: theSolver.Time.Seconds(), WallS: time.Since(t0).Seconds(), Violations: violations, Covers: covers,
 		Unwind: unwindFailures, EngineErrors: engineErrors, Functions: stats.fnsEncoded, Stubs: stats.stubs, Asserts: stats.asserts,
 		FPAbstract: stats.fpAbstract, Budget: budget, SamplePaths: samples, Solver: *solver, Cross: crossStats, Exprs: exprCount}
 	if o.Violations == nil {
